@@ -419,6 +419,41 @@ func (p *c16) pipeline(rec *core.Recorder, r *core.Rand, viaLoader bool) {
 			return
 		}
 	}
+	if viaLoader {
+		// a second save of a name whose template has changed since the first: the file holds what the engine has now
+		var bad string
+		panicked, site, val, stack := core.Guard(func() {
+			cl := twig.NewCompiledLoader(dir)
+			for i, n := range sortedKeys(srcs) {
+				if i%4 != 0 || strings.Contains(n, "/") {
+					continue
+				}
+				next := "RESAVED<" + n + ">{{ 1 + 1 }}"
+				if err := a.RegisterString(n, next); err != nil {
+					bad = fmt.Sprintf("RegisterString(%q) failed: %v", n, err)
+					return
+				}
+				if err := cl.SaveCompiled(a, n); err != nil {
+					bad = fmt.Sprintf("second SaveCompiled(%q) failed: %v", n, err)
+					return
+				}
+				rec.Count("second-saves", 1)
+				got, err := twig.NewCompiledLoader(dir).Load(n)
+				if err != nil || got != next {
+					bad = fmt.Sprintf("%q was registered again with another source and saved again; the compiled loader reads back %s (err=%v), the engine holds %s", n, core.Q(core.Trunc(got, 120)), err, core.Q(next))
+					return
+				}
+			}
+		})
+		if panicked {
+			rec.Violate("panic", "panic@"+site, "saving a changed template again panicked: "+val, cs, stack)
+			return
+		}
+		if bad != "" {
+			rec.Violate("compiled-loader-names", "second-save-not-read-back", bad, map[string]any{"names_saved": sortedKeys(srcs)}, "")
+			return
+		}
+	}
 	if rec.WantSample(class) {
 		rec.Sample(class, map[string]any{"render": entry, "templates": len(srcs), "total_source_bytes": total, "via_compiled_loader": viaLoader, "name_twins": twins})
 	}
